@@ -328,16 +328,17 @@ impl PriceLevel {
                 new_quantity,
             } => {
                 // Find the order
-                if let Some(order) = self.orders.find(order_id) {
-                    // Get current quantities
-                    let old_visible = order.visible_quantity();
-                    let old_hidden = order.hidden_quantity();
-
+                if self.orders.find(order_id).is_some() {
                     // Remove the old order
                     let old_order = match self.orders.remove(order_id) {
                         Some(order) => order,
                         None => return Ok(None), // Order not found, remove by other thread
                     };
+
+                    // Get current quantities from the order actually removed: another
+                    // thread may have replaced it between the lookup and the removal
+                    let old_visible = old_order.visible_quantity();
+                    let old_hidden = old_order.hidden_quantity();
 
                     // Create updated order with new quantity
                     let new_order = old_order.with_reduced_quantity(new_quantity);
